@@ -435,6 +435,55 @@ func c16Run(c c16Case) (v vVerdict) {
 	latestJSON := map[int]string{}
 	changed := false
 	sendalls := 0
+	sendallCheck := func(i int) *vVerdict {
+	// SENDALL: first drain the live copies of what was published so far, then ask for the replay
+		if _, ok := recvUntil(probe(), 10*time.Second); !ok {
+			stop()
+			return &vVerdict{Inconclusive: "lost the end-of-history marker"}
+		}
+		clientMessageChan <- ClientUpdate{"SENDALL", 0}
+		got, ok := recvUntil(probe(), 10*time.Second)
+		if !ok {
+			stop()
+			return &vVerdict{Inconclusive: "lost the end-of-replay marker"}
+		}
+		sendalls++
+		seen := map[string]int{}
+		for _, m := range got {
+			seen[m[0]]++
+			ti := -1
+			for k := range c16Topics {
+				if c16Topics[k].tag == m[0] {
+					ti = k
+				}
+			}
+			want, pub := latestJSON[ti]
+			if ti < 0 || !pub {
+				stop()
+				f := vFailf("replay-extra", "op %d: SENDALL replayed a %s message although that topic was never published in this run: %s", i, m[0], vTrim(m[1], 200))
+				return &f
+			}
+			if m[1] != want {
+				stop()
+				f := vFailf("replay-stale", "op %d: SENDALL replayed %s = %s, the most recent message of that topic was %s", i, m[0], vTrim(m[1], 300), vTrim(want, 300))
+				return &f
+			}
+		}
+		for ti := range latestJSON {
+			tag := c16Topics[ti].tag
+			if seen[tag] == 0 {
+				stop()
+				f := vFailf("replay-missing", "op %d: SENDALL did not replay topic %s (published earlier in this run; %d topics replayed)", i, tag, len(seen))
+				return &f
+			}
+			if seen[tag] > 1 {
+				stop()
+				f := vFailf("replay-duplicate", "op %d: SENDALL replayed topic %s %d times", i, tag, seen[tag])
+				return &f
+			}
+		}
+		return nil
+	}
 	for i, op := range c.Ops {
 		if op.Kind == "pub" {
 			val := c16Value(c.Seed, op.Topic, op.Variant)
@@ -451,47 +500,8 @@ func c16Run(c c16Case) (v vVerdict) {
 			latestJSON[op.Topic] = string(b)
 			continue
 		}
-		// SENDALL: first drain the live copies of what was published so far, then ask for the replay
-		if _, ok := recvUntil(probe(), 10*time.Second); !ok {
-			stop()
-			return vVerdict{Inconclusive: "lost the end-of-history marker"}
-		}
-		clientMessageChan <- ClientUpdate{"SENDALL", 0}
-		got, ok := recvUntil(probe(), 10*time.Second)
-		if !ok {
-			stop()
-			return vVerdict{Inconclusive: "lost the end-of-replay marker"}
-		}
-		sendalls++
-		seen := map[string]int{}
-		for _, m := range got {
-			seen[m[0]]++
-			ti := -1
-			for k := range c16Topics {
-				if c16Topics[k].tag == m[0] {
-					ti = k
-				}
-			}
-			want, pub := latestJSON[ti]
-			if ti < 0 || !pub {
-				stop()
-				return vFailf("replay-extra", "op %d: SENDALL replayed a %s message although that topic was never published in this run: %s", i, m[0], vTrim(m[1], 200))
-			}
-			if m[1] != want {
-				stop()
-				return vFailf("replay-stale", "op %d: SENDALL replayed %s = %s, the most recent message of that topic was %s", i, m[0], vTrim(m[1], 300), vTrim(want, 300))
-			}
-		}
-		for ti := range latestJSON {
-			tag := c16Topics[ti].tag
-			if seen[tag] == 0 {
-				stop()
-				return vFailf("replay-missing", "op %d: SENDALL did not replay topic %s (published earlier in this run; %d topics replayed)", i, tag, len(seen))
-			}
-			if seen[tag] > 1 {
-				stop()
-				return vFailf("replay-duplicate", "op %d: SENDALL replayed topic %s %d times", i, tag, seen[tag])
-			}
+		if f := sendallCheck(i); f != nil {
+			return *f
 		}
 	}
 	persisted := 0
@@ -510,6 +520,13 @@ func c16Run(c c16Case) (v vVerdict) {
 				break
 			}
 			time.Sleep(50 * time.Millisecond)
+		}
+		if saved {
+			// a save must not disturb what a later SENDALL replays
+			if f := sendallCheck(len(c.Ops)); f != nil {
+				return *f
+			}
+			v.Classes = append(v.Classes, "sendall-after-save")
 		}
 		stop()
 		savedTopics := 0
